@@ -35,7 +35,7 @@ COMPONENTS = {
 ROW_BYTES = 24
 
 
-def decorate(r, spec, pool):
+def decorate(r, spec, pool, mp=False):
     """Per-node options: save policy, rechunking, target chunk size, parallel."""
     for n in spec["nodes"]:
         o = {}
@@ -49,6 +49,16 @@ def decorate(r, spec, pool):
         o["target_mb"] = r.choice([200, 200, 4 * ROW_BYTES / 1e6, 2 * ROW_BYTES / 1e6, ROW_BYTES / 1e6])
         if pool and n["kind"] in ("rowmap", "filter", "merge2", "multi") and r.random() < 0.6:
             o["parallel"] = True
+        # Multiprocessing mode is explored in its realistic shape only: ONE process-parallel source (mp_source,
+        # a source the target needs, never loaded from storage) from which a ParallelSourcePlugin inlines the
+        # process-parallel plugins above it.  Outside that shape ParallelSourcePlugin has known limits
+        # (DESIGN.md 12.3): it drives everything it inlines with the chunk index of its start plugin and inlines
+        # a second dependency-free source as well; and with a non-source start plugin it looks up its inputs by
+        # data kind where it needs data types.
+        if mp and ((n["kind"] in ("rowmap", "filter", "multi") and r.random() < 0.7) or n.get("name") == mp):
+            o["parallel"] = "process"
+            if r.random() < 0.7:        # savers of non-rechunking outputs are inlined ('forked') too
+                o["rechunk_on_save"] = {d: False for d in n["names"]} if "names" in n else False
         n["opts"] = o
 
 
@@ -78,7 +88,11 @@ def gen(seed, tier, kinds=None, must=None, **graph_opts):
                 rows = [[int(a), int(b), 0] for a, b in zip(orc[d]["time"], orc[d]["endtime"])]
                 stored[d] = G.gen_bounds(r, rows, start, end, max_chunks=6)
     cfg = G.gen_proc_config(r, spec, target, stored=stored, tier=tier)
-    decorate(r, spec, cfg["max_workers"] > 1)
+    mp_source = False
+    if cfg.get("allow_multiprocess"):
+        stored = {}
+        mp_source = sorted(d for d in need if P.node_by_type(spec)[d]["kind"] == "source")[0]
+    decorate(r, spec, cfg["max_workers"] > 1, mp=mp_source)
     nb = P.node_by_type(spec)
     for d in list(stored):
         sw = nb[d].get("opts", {}).get("save_when")
@@ -179,6 +193,7 @@ def execute(w, seed, strategy="random", forced=None, strict=False):
                     extra_probes={"n_stored_types": len(w["stored"]),
                                   "reloaded_types": len(res.get("reloaded", {})),
                                   "pool_runs": int(w["cfg"]["max_workers"] > 1),
+                                  "multiprocess_stub_runs": int(bool(w["cfg"].get("allow_multiprocess"))),
                                   "single_thread_runs": int(w["cfg"]["processor"] == "single_thread")})
     kinds = sorted({n["kind"] for n in spec["nodes"]})
     r["sample"] = {"target": target, "cfg": w["cfg"], "stored": sorted(w["stored"]),
